@@ -422,11 +422,12 @@ func (queue *Queue) LoadFromMsgStorage() {
 }
 
 // AckMsg accept ack event for message
-func (queue *Queue) AckMsg(message *amqp.Message) {
+// AckMsg settles a delivery of this queue. It reports false, and does nothing, when the queue has been deleted.
+func (queue *Queue) AckMsg(message *amqp.Message) bool {
 	queue.actLock.RLock()
 	defer queue.actLock.RUnlock()
 	if !queue.active {
-		return
+		return false
 	}
 
 	if queue.durable && message.IsPersistent() {
@@ -442,16 +443,18 @@ func (queue *Queue) AckMsg(message *amqp.Message) {
 
 	queue.metrics.Unacked.Counter.Dec(1)
 	queue.metrics.ServerUnacked.Counter.Dec(1)
+	return true
 }
 
 // Requeue add message into queue head
-func (queue *Queue) Requeue(message *amqp.Message) {
+// It reports false, and does nothing, when the queue has been deleted.
+func (queue *Queue) Requeue(message *amqp.Message) bool {
 	// held until the message is back and counted: a concurrent Delete would otherwise read the
 	// length before and the counters would keep the message for ever
 	queue.actLock.RLock()
 	defer queue.actLock.RUnlock()
 	if !queue.active {
-		return
+		return false
 	}
 
 	message.DeliveryCount++
@@ -470,6 +473,7 @@ func (queue *Queue) Requeue(message *amqp.Message) {
 	atomic.AddInt64(&queue.queueLength, 1)
 
 	queue.callConsumers()
+	return true
 }
 
 // Purge clean queue and message storage for durable queues
